@@ -10,6 +10,15 @@ _G = {}
 
 def load(repo_root='/repo', spec_dir=None):
     repo = front.Repo(repo_root)
+    # locals renamed with respect to the committed baseline are mapped back (pure alpha-renamings only, see alpha.py)
+    try:
+        from . import alpha
+        lp = os.path.join(os.path.dirname(os.path.dirname(os.path.abspath(__file__))), 'ledger.json')
+        base = json.load(open(lp)).get('$alpha') if os.path.exists(lp) else None
+        repo.alpha_renamed = alpha.normalise(repo, base)
+    except Exception as e:      # never let the convenience break a run: without it renamed locals make units undecided
+        repo.alpha_renamed = []
+        repo.alpha_error = repr(e)
     spec_dir = spec_dir or os.path.join(os.path.dirname(os.path.dirname(os.path.abspath(__file__))), 'specs')
     paths = sorted(glob.glob(os.path.join(spec_dir, '*.py')))
     paths = [p for p in paths if not p.endswith('__init__.py')]
@@ -100,7 +109,11 @@ def solve_all(eng, obls, timeout_ms):
         for i in range(first, n):
             o = obls[i]
             try:
-                r, backend, dt, model, det = solve(o.assumptions, o.goal, timeout_ms, quick=(o.kind == 'canary'))
+                r, backend, dt, model, det = solve(o.assumptions, o.goal, timeout_ms, quick=(o.kind in ('canary', 'policy') and z3.is_false(o.goal)))
+                if o.kind == 'policy' and z3.is_false(o.goal) and r != 'proved':
+                    # a structural rule (the code uses a per-address table other than by [self.addr]) is broken on a
+                    # path the engine reached: no input is needed to show it; only a refuted path condition excuses it
+                    r, det = 'failed', 'structural access-policy violation on a reachable path (no model needed)'
             except Exception as e:
                 r, backend, dt, model, det = 'unknown', 'error', 0.0, None, repr(e)[:200]
             o.result, o.model = r, model
